@@ -1,6 +1,8 @@
 mod addr;
+mod builders;
 mod common;
 mod det;
+mod gen_c20;
 mod kv;
 mod reg;
 mod route;
@@ -35,6 +37,7 @@ fn run(id: &str, ctx: &Ctx) -> i32 {
         "C17" => route::run_c17(ctx),
         "C18" => addr::run_c18(ctx),
         "C19" => det::run_c19(ctx),
+        "C20" => builders::run_c20(ctx),
         _ => machinery_error(&format!("no check for {}", id)),
     }
 }
@@ -55,6 +58,7 @@ fn replay(path: &str) -> i32 {
         "C17" => route::replay_c17(&ctx, case),
         "C18" => addr::replay_c18(&ctx, case),
         "C19" => det::replay_c19(&ctx, case),
+        "C20" => builders::replay_c20(&ctx, case),
         _ => machinery_error(&format!("no replay for {}", id)),
     }
     let classes = ctx.violation_classes();
